@@ -281,7 +281,9 @@ class Ctx:
         tmp = os.path.join(d, f'.{self.prop}.json.tmp')
         with open(tmp, 'w') as f:
             json.dump(ev, f, indent=1, sort_keys=True)
-        os.replace(tmp, os.path.join(d, f'{self.prop}.json'))
+        # runs against a scratch copy (sensitivity runs) never overwrite the real evidence
+        name = f'{self.prop}.json' if os.path.realpath(REPO) == '/repo' else f'{self.prop}.scratch.json'
+        os.replace(tmp, os.path.join(d, name))
 
 
 def load_corpus(prop):
